@@ -110,6 +110,13 @@ def render_operand(p, a, asy, names):
     if a.op == "Src" and a.id % 4 == 1 and not a.cap:
         # an initial value that binds weaker than a method call (a cast to its own type): still part of its branch
         call += " as %s" % ("Ov" if p.opt else ("BF" if asy else "Rv"))
+    if not a.cap and a.op != "SrcAwait":
+        # operands that end in braces without being block expressions (`unsafe { .. }`, `match .. { .. }`): they are
+        # ordinary operands — evaluated where a plain call would be, never hoisted in front of the step
+        if a.id % 8 == 3:
+            call = "unsafe { %s }" % call
+        elif a.id % 16 == 13:
+            call = "match 0u8 { _ => %s }" % call
     if a.cap:
         snaps = "".join(" %s(%d, &%s);" % ("snapo" if p.opt else "snap", sid, names[b]) for sid, b in a.snaps)
         # every third capture is spelled as a labelled block (still a block expression)
@@ -630,7 +637,7 @@ opt-level = 0
             mods.append(m)
             cases += c
             index[p.id] = si
-        src = "// generated by gen/probe.py — do not edit\n#![allow(unused_imports, unused_mut, unused_variables, unused_parens, clippy::all)]\nuse join::*;\nuse vrt::prelude::*;\n\n" + "\n\n".join(mods)
+        src = "// generated by gen/probe.py — do not edit\n#![allow(unused_imports, unused_mut, unused_variables, unused_parens, unused_unsafe, clippy::all)]\nuse join::*;\nuse vrt::prelude::*;\n\n" + "\n\n".join(mods)
         src += "\n\npub static CASES: &[Case] = &[\n    " + ",\n    ".join(cases) + "\n];\n\nfn main() {\n    vrt::driver::main(CASES);\n}\n"
         with open(os.path.join(outdir, "src", "bin", "probe_%s_%02d.rs" % (tag, si)), "w") as f:
             f.write(src)
